@@ -243,6 +243,8 @@ def check_cfg(ctx, pg, cfg, renderings, sfs=True):
         try:
             res, axis, warned = eval_rendering(pg, cfg, r, sfs)
         except Exception as e:
+            if type(e).__name__ == 'TimeoutCase':
+                raise               # the harness's own per-case time limit (an overloaded machine) is not a verdict on the code
             ctx.violation(f'exception:{type(e).__name__}', cfg=cfg, rendering=r, error=f'{type(e).__name__}: {e}',
                           kwargs=build_kwargs(cfg, r))
             continue
